@@ -465,11 +465,9 @@ pub proof fn lemma_fields_prefix(s0: Seq<u8>, f1: Seq<u8>, f2: Seq<u8>, f3: Seq<
 
 
 // ---- Serialize: trait and blanket implementation -------------------------------------------
-// The default method `Serialize::serialize` (WriterWithPos::new, serialize_on_field_write,
-// pos) is not in this unit: its postcondition speaks about the caller's sink after the
-// position-tracking wrapper is gone, which needs a prophetic ghost field threaded through
-// every writer contract; the Kani lemmas hdr_bytes_* and wfail_entry_* drive it.
-
+// The default method `Serialize::serialize` speaks about the caller's sink after the
+// position-tracking wrapper is gone: the prophetic ghost fields fin_sink / fin_wf of the
+// writer contract (ser_base.tpl) carry that through every generic writer call.
 //@item epserde/src/ser/mod.rs props=C01,C06,C13 name=Serialize <<pub trait Serialize {>>
 //@  replace <<Result<()>>> <<SResult<()>>>
 //@  drop <<fn serialize_with_schema(&self, backend: &mut impl WriteNoStd) -> Result<Schema> {>>
@@ -482,7 +480,19 @@ pub proof fn lemma_fields_prefix(s0: Seq<u8>, f1: Seq<u8>, f2: Seq<u8>, f3: Seq<
 //@  sub <<fn serialize(&self, backend: &mut impl WriteNoStd) -> Result<usize> {>>
 //@  replace <<Result<usize>>> <<SResult<usize>>>
 //@  impl_arg
-//@  external_body
+//@  ret r
+//@  spec
+//@|        requires old(backend).wf(), self.ser_ok(),
+//@|            old(backend).sink().len() + self.stream().len() <= usize::MAX,
+//@|        ensures final(backend).wf(),
+//@|            match r {
+//@|                // C06: the caller's sink has received exactly the published stream; the count is its length
+//@|                Ok(n) => final(backend).sink() =~= old(backend).sink() + self.stream() && n == self.stream().len(),
+//@|                // C13: a write error, and what the sink accepted is a prefix of the stream
+//@|                Err(e) => e is WriteError
+//@|                    && is_prefix(old(backend).sink(), final(backend).sink())
+//@|                    && is_prefix(final(backend).sink(), old(backend).sink() + self.stream()),
+//@|            },
 //@  sub <<fn serialize_on_field_write(&self, backend: &mut impl WriteWithNames) -> Result<()>;>>
 //@  impl_arg
 //@  ret r
